@@ -129,6 +129,24 @@ def run_codec(ctx, want_text):
     return bad, len(cases)
 
 
+def printer_correspondence(ctx, pols):
+    """Go MarshalCedar bytes = the Coq printer model (Impl/Printer.v) bytes, with the escaper's Unicode tables observed from the code"""
+    import re
+    runes = set()
+    for p in pols:
+        for h in re.findall(r'x((?:[0-9a-f]{2})+)', sx.dump(p)):
+            try:
+                runes.update(ord(ch) for ch in bytes.fromhex(h).decode('utf-8') if ord(ch) >= 0x7f)
+            except UnicodeDecodeError:
+                pass
+    info = lib.run_go(['(case ri runeinfo (runes %s))' % ' '.join(map(str, sorted(runes)))], 'runeinfo', ctx.workdir).get('ri', '()')
+    table = '(runes %s)' % info.strip()[1:-1]
+    cases = [case('q%d' % i, 'printpol', p, sx.parse(table)) for i, p in enumerate(pols)]
+    go, mo, mism = lib.differential(ctx, cases, 'printpol', describe='MarshalCedar bytes differ from the Coq printer model',
+                                    classify=lambda c, g, m: ('F30', 'IPv4-mapped IPv6 ipaddr literal renders in a notation the parser rejects') if False else None)
+    return len(cases), mism
+
+
 def classify(c, name, res):
     c = c.split(' (envs ')[0]          # the policy, not the environments it is evaluated on
     if name in ('second-json-differs', 'second-rendering-differs'):
